@@ -500,26 +500,19 @@ type c05ReplayRec struct {
 // premature gc instructions found by the implementation-side liveness
 // analysis.
 func c05Classify(pre []c05Premature) string {
-	chain, concat, direct := false, false, false
+	deep, direct := false, false
 	for _, p := range pre {
-		switch {
-		case p.ViaConcat:
-			concat = true
-		case p.Depth >= 2:
-			chain = true
-		default:
+		if p.Depth >= 2 {
+			deep = true
+		} else {
 			direct = true
 		}
 	}
 	switch {
+	case deep:
+		return "c05:gc:alias-of-alias-still-live:stream-differs-from-whole"
 	case direct:
-		return "c05:Program.GC:direct-alias"
-	case chain && concat:
-		return "c05:Program.GC:alias-of-alias+concat-alias"
-	case chain:
-		return "c05:Program.GC:alias-of-alias"
-	case concat:
-		return "c05:Program.GC:concat-alias"
+		return "c05:gc:alias-still-live:stream-differs-from-whole"
 	}
 	return ""
 }
@@ -595,6 +588,7 @@ func c05Program(c *Ctx, idx int, name string, p c05Prog, frag int) error {
 	if exErr == nil {
 		if len(ex.premature) > 0 {
 			c.Hist("has-premature-gc")
+			c.Note("case %d (%s): premature gc %v; stream %s whole %s\n%s", idx, name, ex.premature, bigsString(s.gRes), bigsString(w.res), p.src)
 		}
 		c.Hist(fmt.Sprintf("steps:%d", (ex.nSteps/20)*20))
 	}
@@ -742,6 +736,13 @@ func runC05(c *Ctx) error {
 	// permanent wire ids all stay below 65536
 	for i := 0; i < c.N(1, 3); i++ {
 		if err := c05Program(c, idx, "big-circuit", c05BigProg(c.rng.Fork(), i), 0); err != nil {
+			return err
+		}
+		idx++
+	}
+	// concatenation / slice / joint death of both operands / same-width fresh values
+	for _, p := range c05AliasPrograms(c) {
+		if err := c05Program(c, idx, "alias-family", p, 0); err != nil {
 			return err
 		}
 		idx++
